@@ -147,6 +147,18 @@ func corpus() []Case {
 		// the temporary file of StoreRawDataBlock cannot be created
 		{Source: "triangle", Seed: 29, Ops: []Op{st, {Op: "storeraw", N: 4, Io: true}, trig(1), {Op: "storeraw", N: 4}, sp}},
 		{Source: "triangle", Seed: 30, Ops: []Op{{Op: "storeraw", N: 4, Io: true}, st, {Op: "storeraw", N: 0, Io: true}, {Op: "storeraw", N: 2, Io: true}, {Op: "stopc"}, sp}},
+		// the same invalid request again and again: an error every time, and the refused values stick nowhere
+		{Source: "triangle", Seed: 31, Ops: []Op{st, {Op: "lengths", Ns: 8, Np: 2}, {Op: "lengths", Ns: 8, Np: 2}, {Op: "lengths", Ns: 8, Np: 2},
+			{Op: "lengths", Ns: 5, Np: 5}, {Op: "lengths", Ns: 5, Np: 5}, sp, st, {Op: "lengths", Ns: 16, Np: 4}, sp}},
+		{Source: "triangle", Seed: 32, Ops: []Op{st, trig(3), trig(3), {Op: "projectors", PIdx: 7, B64Ok: true, MatOk: true, Pcols: 16},
+			{Op: "projectors", PIdx: 7, B64Ok: true, MatOk: true, Pcols: 16}, {Op: "gadd", Conns: [][2]int{{0, 9}}}, {Op: "gadd", Conns: [][2]int{{0, 9}}},
+			{Op: "storeraw", N: -1}, {Op: "storeraw", N: -1}, {Op: "coupleerr", On: true}, {Op: "coupleerr", On: true}, {Op: "label"}, {Op: "label"},
+			{Op: "wc", W: "garbage"}, {Op: "wc", W: "garbage"}, {Op: "mix", Idx: []int{1}, Nfrac: 1}, {Op: "mix", Idx: []int{1}, Nfrac: 1}, sp}},
+		// WriteControl START whose run directory can be made but whose experiment-state file cannot
+		// (no trigger is on: with that path every data file is uncreatable too, which would be a second failure)
+		{Source: "triangle", Seed: 33, Ops: []Op{st, {Op: "wc", W: "start", Ljh: true, PathO: true, Io: true}, {Op: "stopc"}, {Op: "wc", W: "stop"}, trig(0), sp}},
+		// two mix requests outstanding at the same moment (two connections)
+		{Source: "lancero", Seed: 34, Ops: []Op{st, {Op: "mix2", Idx: []int{1}, Nfrac: 1}, {Op: "mix", Idx: []int{3}, Nfrac: 1}, sp}},
 		// restart on the same server
 		{Source: "triangle", Seed: 14, Ops: []Op{st, trig(1), sp, trig(1), st, st, trig(1), sp, sp}},
 	}
@@ -185,6 +197,10 @@ func gen(seed uint64, tier string) []interface{} {
 			nreq = q.Range(1, 4)
 		}
 		for j := 0; j < nreq; j++ {
+			if j > 0 && q.Chance(1, 4) { // the previous request once more
+				ops = append(ops, ops[len(ops)-1])
+				continue
+			}
 			if src == "erroring" && q.Chance(1, 3) {
 				ops = append(ops, Op{Op: "settle"})
 			} else if src == "erroring" && q.Chance(1, 3) {
